@@ -257,6 +257,7 @@ package headers
 //@   lemma [C03.lemma-accept-split] before (*Branch).Add, NewBranch: old(forall(j, 0, len(repo.branches), holderAt(repo.branches, header.PrevBlock, j) ==> !splitRefused(repo, hashOf(header), heightVia(repo.branches, header.PrevBlock, j))))
 //@   lemma [C17.lemma-not-marked,C08.lemma-not-marked] before (*Branch).Add, NewBranch: !old(markedInvalid(repo, hashOf(header)))
 //@   lemma [C08.lemma-depth] before (*Branch).Add, NewBranch: old(forall(j, 0, len(repo.branches), holderAt(repo.branches, header.PrevBlock, j) ==> !tooDeep(repo, repo.branches[j], findH(repo.branches[j], header.PrevBlock), header.PrevBlock)))
+//@   safety [C15]
 //@   modifies all
 //@   loop 1
 //@     invariant (-1 <= rangeindex && rangeindex < len(repo.splits)) || (len(repo.splits) == 0 && rangeindex == -1)
